@@ -84,6 +84,10 @@ type State struct {
 	Log    []Inv
 	clock  int64
 	Recov  int
+	// CancelAt > 0: the request context is cancelled when the logical clock reaches this value
+	CancelAt int64
+	Cancel   func()
+	Cancelled bool
 }
 
 type stateKey struct{}
@@ -100,13 +104,22 @@ func (s *State) tick() int64 {
 	s.mu.Lock()
 	defer s.mu.Unlock()
 	s.clock++
+	s.maybeCancel()
 	return s.clock
+}
+
+func (s *State) maybeCancel() {
+	if s.CancelAt > 0 && s.clock >= s.CancelAt && !s.Cancelled && s.Cancel != nil {
+		s.Cancelled = true
+		s.Cancel()
+	}
 }
 
 func (s *State) record(i Inv) {
 	s.mu.Lock()
 	defer s.mu.Unlock()
 	s.clock++
+	s.maybeCancel()
 	i.End = s.clock
 	s.Log = append(s.Log, i)
 }
@@ -141,6 +154,8 @@ func PathString(p ast.Path) string {
 
 type U struct {
 	Types map[string]reflect.Type
+	// StubType is the type of stubgen's Stub struct (set by Bind; used by -mode c02schema)
+	StubType reflect.Type
 }
 
 var (
@@ -151,6 +166,7 @@ var (
 // Bind fills every func-typed field of the stub (stubgen's `Stub`) and of the DirectiveRoot.
 func (u *U) Bind(stub any, directives any, complexity any) {
 	sv := reflect.ValueOf(stub).Elem()
+	u.StubType = sv.Type()
 	for i := 0; i < sv.NumField(); i++ {
 		rs := sv.Field(i)
 		if rs.Kind() != reflect.Struct {
@@ -221,12 +237,19 @@ func (s *State) decide(path string, salt string) (Outcome, uint64) {
 	return o, h
 }
 
-func wait(o Outcome) {
+// wait sleeps as the plan says but returns promptly once the context is cancelled
+// ("resolvers return promptly when their context is cancelled").
+func wait(ctx context.Context, o Outcome) {
 	for i := 0; i < o.Yield; i++ {
 		runtime.Gosched()
 	}
 	if o.Delay > 0 {
-		time.Sleep(time.Duration(o.Delay) * time.Microsecond)
+		t := time.NewTimer(time.Duration(o.Delay) * time.Microsecond)
+		defer t.Stop()
+		select {
+		case <-t.C:
+		case <-ctx.Done():
+		}
 	}
 }
 
@@ -249,7 +272,7 @@ func (u *U) resolve(ft reflect.Type, obj, goField string, args []reflect.Value) 
 		inv.Args = strings.Join(parts, ", ")
 	}
 	o, h := s.decide(path, "")
-	wait(o)
+	wait(ctx, o)
 	rt := ft.Out(0)
 	zero := reflect.Zero(rt)
 	nilErr := reflect.Zero(errType)
@@ -492,7 +515,7 @@ func (u *U) directive(ft reflect.Type, name string, args []reflect.Value) []refl
 	salt := "@" + name
 	inv := Inv{Path: path, Hook: "directive:" + name, Args: tag, Start: s.tick()}
 	o, _ := s.decide(path, salt)
-	wait(o)
+	wait(ctx, o)
 	anyT := ft.Out(0)
 	ret := func(v any, err error) []reflect.Value {
 		rv := reflect.Zero(anyT)
